@@ -38,6 +38,28 @@ Proof. reflexivity. Qed.
     replace (takeN l 0) with (Some (@nil N, l)) by (destruct l; reflexivity). reflexivity. Qed.
 
 
+  (* ---- primitive steps on well-formed input ---- *)
+  Lemma pnum1 x r : x < 256 -> pnum 1 (x :: r) = Some (x, r, 1).
+  Proof. intros H. change (x :: r) with ([x] ++ r).
+    replace [x] with (le_enc 1 x) by (cbn; f_equal; lia).
+    exact (pnum_app 1%nat x r H). Qed.
+  Lemma pnum2 x r : x < 2 ^ 16 -> pnum 2 (le_enc 2 x ++ r) = Some (x, r, 2).
+  Proof. intros H. exact (pnum_app 2%nat x r H). Qed.
+  Lemma pnum4 x r : x < 2 ^ 32 -> pnum 4 (le_enc 4 x ++ r) = Some (x, r, 4).
+  Proof. intros H. exact (pnum_app 4%nat x r H). Qed.
+  Lemma pnum8 x r : x < 2 ^ 64 -> pnum 8 (le_enc 8 x ++ r) = Some (x, r, 8).
+  Proof. intros H. exact (pnum_app 8%nat x r H). Qed.
+
+  Lemma vtype_code_roundtrip vt : vtype_of_code (vtype_code vt) = Some vt.
+  Proof. destruct vt; reflexivity. Qed.
+  Lemma comp_code_roundtrip c : comp_of_code (comp_code c) = Some c.
+  Proof. destruct c; reflexivity. Qed.
+  Lemma vtype_code_byte vt : vtype_code vt < 256.
+  Proof. destruct vt; reflexivity. Qed.
+  Lemma comp_code_byte c : comp_code c < 256.
+  Proof. destruct c; reflexivity. Qed.
+
+
 Set Default Proof Using "All".
 
 Section CodecP.
@@ -90,32 +112,11 @@ Section CodecP.
   Lemma dec_entry_nil : dec_entry [] = None.
   Proof. reflexivity. Qed.
 
-  (* ---- primitive steps on well-formed input ---- *)
-  Lemma pnum1 x r : x < 256 -> pnum 1 (x :: r) = Some (x, r, 1).
-  Proof. intros H. change (x :: r) with ([x] ++ r).
-    replace [x] with (le_enc 1 x) by (cbn; f_equal; lia).
-    exact (pnum_app 1%nat x r H). Qed.
-  Lemma pnum2 x r : x < 2 ^ 16 -> pnum 2 (le_enc 2 x ++ r) = Some (x, r, 2).
-  Proof. intros H. exact (pnum_app 2%nat x r H). Qed.
-  Lemma pnum4 x r : x < 2 ^ 32 -> pnum 4 (le_enc 4 x ++ r) = Some (x, r, 4).
-  Proof. intros H. exact (pnum_app 4%nat x r H). Qed.
-  Lemma pnum8 x r : x < 2 ^ 64 -> pnum 8 (le_enc 8 x ++ r) = Some (x, r, 8).
-  Proof. intros H. exact (pnum_app 8%nat x r H). Qed.
-
   Lemma dec_entry_zero l : dec_entry (0 :: l) = None.
   Proof.
     unfold Codec.dec_entry. unfold pbind at 1. rewrite pnum1 by reflexivity.
     reflexivity.
   Qed.
-
-  Lemma vtype_code_roundtrip vt : vtype_of_code (vtype_code vt) = Some vt.
-  Proof. destruct vt; reflexivity. Qed.
-  Lemma comp_code_roundtrip c : comp_of_code (comp_code c) = Some c.
-  Proof. destruct c; reflexivity. Qed.
-  Lemma vtype_code_byte vt : vtype_code vt < 256.
-  Proof. destruct vt; reflexivity. Qed.
-  Lemma comp_code_byte c : comp_code c < 256.
-  Proof. destruct c; reflexivity. Qed.
 
   Ltac step_bind := unfold pbind at 1.
 
